@@ -21,7 +21,7 @@ mkdir -p /verif/seeded/$name && cp $src/patch.diff $demo $src/meta.json /verif/s
 # run my check against a scratch worktree carrying the patch (never /repo itself while other work is going on)
 cd /verif
 git -C /repo worktree add -q --detach $wt HEAD && git -C $wt apply $src/patch.diff || { echo "cannot apply"; exit 2; }
-REPO=$wt VERIF_HANG_S=15 timeout 900 ./run.sh check $prop quick > /tmp/val-$name.check.log 2>&1
+REPO=$wt VERIF_HANG_S=${SEED_HANG_S:-60} timeout 900 ./run.sh check $prop quick > /tmp/val-$name.check.log 2>&1
 c=$?
 git -C /repo worktree remove --force $wt
 ./run.sh build > /dev/null 2>&1
